@@ -34,10 +34,12 @@ class LTLExplainer(LtlAstVisitor):
     def explain(self, spec):
         self.spec = spec
         self.explanations = Explanations()
-        for spec in self.spec.specs:
-            top_signal = self.spec.results[spec]
-            if top_signal[0] < 0:
-                self.visit(spec, [[[0, 0]], False])
+        # the verdict of a specification is that of its last assertion, the one evaluate() reports; a named sub-formula
+        # is explained where that assertion refers to it, not on its own
+        spec = self.spec.specs[-1]
+        top_signal = self.spec.results[spec]
+        if top_signal[0] < 0:
+            self.visit(spec, [[[0, 0]], False])
 
 
     def visitConstant(self, element, args):
